@@ -281,6 +281,10 @@ func (p *parser) parseObjectProperty() ast.Property {
 		idx := p.idx
 		_, value = p.parseObjectPropertyKey()
 		parameterList := p.parseFunctionParameterList()
+		if len(parameterList.List) != 0 {
+			// 11.1.5: get PropertyName ( ) { FunctionBody }
+			p.error(parameterList.Opening, "Getter must not have any formal parameters.")
+		}
 
 		node := &ast.FunctionLiteral{
 			Function:      idx,
@@ -296,6 +300,10 @@ func (p *parser) parseObjectProperty() ast.Property {
 		idx := p.idx
 		_, value = p.parseObjectPropertyKey()
 		parameterList := p.parseFunctionParameterList()
+		if len(parameterList.List) > 1 {
+			// 11.1.5: set PropertyName ( PropertySetParameterList ) { FunctionBody }
+			p.error(parameterList.Opening, "Setter must have exactly one formal parameter.")
+		}
 
 		node := &ast.FunctionLiteral{
 			Function:      idx,
